@@ -126,6 +126,17 @@ CHECKS["C15"] = dict(
         "is accepted when chunk boundaries isolate it.",
    technique="TLA+ L1 reader model with fault injection checked by TLC; replay of every configuration + TLC trace validation of recorded reads",
    design="6/C15")
+CHECKS["C09"] = dict(
+   text="spec/GenomicArray.tla defines Dense(bedGraph) contig by contig, the pile-up of the same runs read as intervals, pointwise "
+        "evaluation of expression trees over {+,-,*,<,>,==,&,|,~} with array and scalar leaves, sum, histogram and the back-conversion "
+        "to runs, with TLC-checked Lossless / RunsOrdered. MC_C09 grows a bedGraph run by run in genome order (every sorted, "
+        "non-overlapping bedGraph with gaps, late starts, early ends, empty) on genomes of 1-4 contigs and then chooses a tree (depth <=2); "
+        "every state is replayed on real GenomicArray objects (expansion, ufuncs, sums, histogram), and the records returned by "
+        "get_data() are sent back to TLC, which decides non-overlap, genome order and exact re-expansion (Trace_C09).",
+   note=TB + "Values 1 and 2 (gaps read as 0); float tracks (halves and inexact decimals) are checked for bit-exact expansion with the identity tree. "
+        "Maximal runs are NOT demanded of the back-conversion (an earlier version of this check did, which was a false alarm).",
+   technique="TLA+ dense-array semantics + TLC state enumeration replayed into code; TLC validation of returned records",
+   design="6/C09")
 PENDING = {}
 def main():
     props = [json.loads(l)["id"] for l in open(os.path.join(HERE, "properties.jsonl"))]
